@@ -649,8 +649,11 @@ static size_t copy_chars (UCHAR* from, UCHAR* to, size_t count, interactive_t* i
         case TS_SB_IAC:
           if (from[i] == IAC)
             {
-              if (ip->sb_pos >= SB_SIZE)
-                break;
+              if (ip->sb_pos >= SB_SIZE - 1) /* keep room for the terminating 0 written at IAC SE */
+                {
+                  ip->state = TS_SB;
+                  break;
+                }
               /* IAC IAC is a quoted IAC char */
               ip->sb_buf[ip->sb_pos++] = INT_CHAR(IAC);
               ip->state = TS_SB;
@@ -938,7 +941,7 @@ static size_t copy_chars (UCHAR* from, UCHAR* to, size_t count, interactive_t* i
               ip->state = TS_SB_IAC;
               break;
             }
-          if (ip->sb_pos < SB_SIZE)
+          if (ip->sb_pos < SB_SIZE - 1) /* keep room for the terminating 0 written at IAC SE */
             ip->sb_buf[ip->sb_pos++] = from[i];
           break;
         }
